@@ -215,10 +215,21 @@ class SegStr:
                     return SegStr(segs).strip('rstrip', chars, strict, sign) if mode == 'strip' else SegStr(segs)
                 raise Unsupported('strip() at a formatted number whose first column is a blank for some values: %r'
                                   % (segs[0].value,))
+        special = chars is not None and set(chars) - set(' \n')
         if mode in ('strip', 'lstrip') and segs and segs[0].kind == 'lit':
-            segs[0] = Seg('lit', text=segs[0].text.lstrip(chars))
+            t_ = segs[0].text.lstrip(chars)
+            if strict and special and not t_ and len(segs) > 1:
+                raise Unsupported('strip(%r) reaches a symbolic field' % (chars,))
+            segs[0] = Seg('lit', text=t_)
+        elif strict and special and mode in ('strip', 'lstrip') and segs and segs[0].kind == 'field':
+            raise Unsupported('strip(%r) at a symbolic field' % (chars,))
         if mode in ('strip', 'rstrip') and segs and segs[-1].kind == 'lit':
-            segs[-1] = Seg('lit', text=segs[-1].text.rstrip(chars))
+            t_ = segs[-1].text.rstrip(chars)
+            if strict and special and not t_ and len(segs) > 1:
+                raise Unsupported('strip(%r) reaches a symbolic field' % (chars,))
+            segs[-1] = Seg('lit', text=t_)
+        elif strict and special and mode in ('strip', 'rstrip') and segs and segs[-1].kind == 'field':
+            raise Unsupported('strip(%r) at a symbolic field' % (chars,))
         return SegStr(segs)
 
     def replace(self, old, new):
